@@ -62,7 +62,7 @@ def gen_requests(rng, tier):
 def gen_search_requests(rng, tier):
     """sessions of real src_search runs: search <mode> <strat> <n> <param> <preva> <gens> <inds> <vseed> <k1> [<k2>…]"""
     reqs = []
-    ns = 44 if tier == "quick" else 700
+    ns = 120 if tier == "quick" else 1500
     for k in range(ns):
         mode = "spy" if rng.below(2) else "real"
         strat = rng.choice(["dss", "dss", "dss", "holdout", "holdout", "asis"])
@@ -74,7 +74,7 @@ def gen_search_requests(rng, tier):
         else:
             param = 0
         preva = rng.between(1, 4) if (strat != "dss" and rng.below(4) == 0) else 0
-        gens = rng.choice([0, 1, 2, 3, 5, 7])
+        gens = rng.choice([1, 1, 2, 3, 5, 7])      # env.generations (0 would mean auto-tune: 100)
         calls = [[1], [2], [3], [1, 1], [2, 1], [1, 0, 2]][rng.below(6)]
         if mode == "real" and strat != "asis" and rng.below(6) == 0:
             strat += "-unset"       # the parameter is left to src_search::tune_parameters
